@@ -93,6 +93,7 @@ package jtypes
 //@ func iface:Callable.Name
 //@   assigns nothing
 //@ func iface:Callable.ParamCount
+//@   ensures result >= 0
 //@   assigns nothing
 //@ func iface:Callable.Call
 //@   ensures r1 != nil ==> !valid(r0)
